@@ -124,6 +124,16 @@ pub fn replay(args: &[String]) {
                     if got.iter().any(|x| *x != base) {
                         s.violation("wire:pdu:accessor", format!("{name} with serial {base:#010x} hands back {got:x?}"), c.clone());
                     }
+                    // ... and back from the wire, however the octets arrive: whole, in threes, one at a time
+                    for chunk in [64usize, 3, 1] {
+                        match guarded(|| read_serial_back(name, &bytes, chunk)) {
+                            Ok(Ok((serial, used))) => if serial != base || used != bytes.len() {
+                                s.violation("wire:pdu:read", format!("{name} with serial {base:#010x} delivered {chunk} octets at a time reads back as {serial:#010x} after {used} of {} octets", bytes.len()), c.clone());
+                            },
+                            Ok(Err(m)) => s.violation("wire:pdu:read", format!("{name} with serial {base:#010x} delivered {chunk} octets at a time is not read back: {m}"), c.clone()),
+                            Err(m) => s.violation("wire:pdu:panic", m, c.clone()),
+                        }
+                    }
                 },
             }
             s.evals(1);
@@ -141,6 +151,33 @@ pub fn replay(args: &[String]) {
         }
     }
     s.print();
+}
+
+/// Poll a future whose stream is always ready (crate::rtrwire::Counting) to its end.
+fn run_now<F: std::future::Future>(f: F) -> Option<F::Output> {
+    let mut f = std::pin::pin!(f);
+    let mut cx = std::task::Context::from_waker(std::task::Waker::noop());
+    for _ in 0..200 {
+        if let std::task::Poll::Ready(v) = f.as_mut().poll(&mut cx) { return Some(v); }
+    }
+    None
+}
+/// The serial number a PDU's own reader takes from the wire, and the octets it consumed.
+fn read_serial_back(name: &str, bytes: &[u8], chunk: usize) -> Result<(u32, usize), String> {
+    use rpki::rtr::pdu;
+    let mut rd = crate::rtrwire::Counting::new(bytes.to_vec(), chunk);
+    let e = |x: std::io::Error| x.to_string();
+    let serial = run_now(async {
+        Ok::<u32, String>(match name {
+            "SerialNotify" => { let p = pdu::SerialNotify::read(&mut rd).await.map_err(e)?; let b: &[u8] = p.as_ref(); u32::from_be_bytes([b[8], b[9], b[10], b[11]]) }
+            "SerialQuery" => { let p = pdu::SerialQuery::read(&mut rd).await.map_err(e)?; let b: &[u8] = p.as_ref(); u32::from_be_bytes([b[8], b[9], b[10], b[11]]) }
+            "SerialQueryPayload" => { let _h = pdu::Header::read(&mut rd).await.map_err(e)?; pdu::SerialQueryPayload::read(&mut rd).await.map_err(e)?.serial().0 }
+            "EndOfDataV0" => pdu::EndOfDataV0::read(&mut rd).await.map_err(e)?.serial().0,
+            "EndOfDataV1" => pdu::EndOfDataV1::read(&mut rd).await.map_err(e)?.serial().0,
+            _ => match pdu::Payload::read(&mut rd).await.map_err(e)? { Err(eod) => eod.serial().0, Ok(_) => return Err("read as a payload PDU".into()) },
+        })
+    }).ok_or("the reader waits although the stream has ended")??;
+    Ok((serial, rd.consumed()))
 }
 
 fn halves(x: u32) -> Value {
